@@ -75,6 +75,8 @@ def check_case(case):
                         layer = nl[h]
                         if len(layer) != 2 ** h:
                             raise Violation("layer-size", "depth %d holds %d cells, expected 2^h" % (h, len(layer)), t)
+                        if any(not c.get_rank() for c in layer):
+                            raise Violation("rank-permutation", "a cell of depth %d has no rank at the time of the draw" % h, t)
                         ranks = [c.get_rank()[-1] for c in layer]
                         if sorted(ranks) != list(range(1, 2 ** h + 1)):
                             raise Violation("rank-permutation", "ranks at depth %d are not a permutation of 1..%d: %r" % (h, 2 ** h, sorted(ranks)[:10]), t)
